@@ -790,3 +790,1099 @@ def socks5_init_env(**extra):
     env = {"self.state": R("self.state_greet"), "self._handle_event": R("self._handle_event"), "$epoch": C(0)}
     env.update(extra)
     return env
+
+
+# ===================================================================================================
+# Interpretation harness (hardening round): the layer / addon code is *interpreted* from its AST (pyint) on concrete inputs,
+# so that rules compare what the code does - commands, replies, state - and not how it is written.  A refactor (helper
+# extraction, match, early returns, tables, struct.pack, renamed locals / private methods, logging, assertions, defaulted
+# parameters) is interpreted like the original; an edit that changes an outcome changes the interpreted result.
+
+import socket as _socket  # noqa: E402
+import struct as _struct  # noqa: E402
+from types import SimpleNamespace as _NS  # noqa: E402
+
+from ..pyint import _Return  # noqa: E402
+from ..pyint import ClassRef  # noqa: E402
+from ..pyint import DictRec  # noqa: E402
+from ..pyint import Func  # noqa: E402
+from ..pyint import Interp  # noqa: E402
+from ..pyint import Raised  # noqa: E402
+from ..pyint import Rec  # noqa: E402
+
+
+class CachedModel:
+    """Read-only proxy of ``Model`` that memoises the class-hierarchy queries the interpreter repeats for every attribute access."""
+
+    def __init__(self, model):
+        self._m = model
+        self._mro: dict = {}
+        self._method: dict = {}
+        self._dotted: dict = {}
+        self._resolved: dict = {}
+
+    def __getattr__(self, name):
+        return getattr(self._m, name)
+
+    def module_by_dotted(self, dotted):
+        if dotted not in self._dotted:
+            self._dotted[dotted] = self._m.module_by_dotted(dotted)
+        return self._dotted[dotted]
+
+    def resolve_name(self, mod, expr):
+        if isinstance(expr, ast.Name):
+            k = (mod.rel, expr.id)
+            if k not in self._resolved:
+                self._resolved[k] = Model_resolve(self, mod, expr)
+            return self._resolved[k]
+        return Model_resolve(self, mod, expr)
+
+    def mro(self, rel, qual):
+        k = (rel, qual)
+        if k not in self._mro:
+            self._mro[k] = self._m.mro(rel, qual)
+        return self._mro[k]
+
+    def method(self, rel, cls_qual, name):
+        k = (rel, cls_qual, name)
+        if k not in self._method:
+            r = None
+            for m, c in self.mro(rel, cls_qual):
+                for st in c.body:
+                    if isinstance(st, (ast.FunctionDef, ast.AsyncFunctionDef)) and st.name == name:
+                        r = (m, st)
+                        break
+                if r:
+                    break
+            self._method[k] = r
+        return self._method[k]
+
+
+def Model_resolve(cm, mod, expr):
+    from ..model import Model
+
+    return Model.resolve_name(cm, mod, expr)  # the unbound method, so that its inner look-ups use the caches of the proxy
+
+
+class NullLogger:
+    """``logging`` without effect: diagnostics are not part of any rule's alphabet."""
+
+    def _noop(self, *a, **k):
+        return None
+
+    debug = info = warning = warn = error = exception = critical = log = _noop
+
+    def isEnabledFor(self, *a):
+        return False
+
+    def getChild(self, *a):
+        return self
+
+
+NULL_LOGGER = NullLogger()
+LOGGING_STUB = _NS(DEBUG=10, INFO=20, WARNING=30, WARN=30, ERROR=40, CRITICAL=50, NOTSET=0, getLogger=lambda *a: NULL_LOGGER, getLevelName=lambda lv: str(lv),
+                   debug=NULL_LOGGER._noop, info=NULL_LOGGER._noop, warning=NULL_LOGGER._noop, error=NULL_LOGGER._noop, log=NULL_LOGGER._noop)
+SOCKET_STUB = _NS(inet_ntop=_socket.inet_ntop, inet_ntoa=_socket.inet_ntoa, inet_pton=_socket.inet_pton, inet_aton=_socket.inet_aton, AF_INET=_socket.AF_INET, AF_INET6=_socket.AF_INET6)
+WARNINGS_STUB = _NS(warn=lambda *a, **k: None)
+
+
+class Opaque:
+    """Value of an attribute the rule's world does not define (``conn.peername`` in a log call).  It may be passed to logging and formatted;
+    any *decision* or computation on it is outside the model (AnalysisError), never a guess."""
+
+    def __init__(self, name):
+        self.name = name
+
+    def __repr__(self):
+        return f"<opaque {self.name}>"
+
+    __str__ = __repr__
+
+    def __format__(self, spec):
+        return repr(self)
+
+
+class OpenRec(Rec):
+    """A record whose undefined attributes read as ``Opaque`` (instead of ending the analysis)."""
+
+
+class OpenDictRec(DictRec, OpenRec):
+    """A mapping record (options) whose undefined attributes read as ``Opaque``."""
+
+
+class _Where:
+    """Source text of a call site, rendered only when an error message needs it."""
+
+    def __init__(self, node):
+        self.node = node
+
+    def __str__(self):
+        return norm(self.node)[:80] if self.node is not None else "?"
+
+    __repr__ = __str__
+
+    def __format__(self, spec):
+        return str(self)
+
+
+class GenDone:
+    """A finished (eagerly executed) call of a repository generator function."""
+
+    def __init__(self, yields, value):
+        self.yields, self.value = yields, value
+
+
+def _is_dataclass(cdef) -> bool:
+    return any(last_attr(d.func if isinstance(d, ast.Call) else d) == "dataclass" for d in cdef.decorator_list)
+
+
+class LayerInterp(Interp):
+    """pyint for sans-io layers and addon hooks:
+    * a call of a generator function is executed eagerly; every yielded command is handed to ``respond(command)`` (the rule's
+      environment: it may mutate hook data and returns the value sent back - ``err = yield OpenConnection(..)``) and appended to
+      ``self.log`` in program order; ``x = yield from g()`` gets g's return value;
+    * class-level attributes are evaluated in class scope and bound like methods (``state = state_greet``); ``del self.attr``;
+      ``A | B`` of classes is the tuple (A, B) for isinstance; dataclasses get the generated ``__init__``; a null ``logging``."""
+
+    def __init__(self, model, respond=None, trusted_modules=None, externals=None, **kw):
+        tm = {"logging": LOGGING_STUB, "socket": SOCKET_STUB, "struct": _struct, "warnings": WARNINGS_STUB}
+        for pure in ("ipaddress", "binascii", "base64", "re", "itertools", "operator", "math", "string", "codecs", "collections", "enum"):
+            tm[pure] = __import__(pure)  # pure stdlib functions of bytes / str / int (arguments that are records are refused by native_call)
+        tm.update(trusted_modules or {})
+        super().__init__(model if isinstance(model, CachedModel) else CachedModel(model), trusted_modules=tm, externals=externals, **kw)
+        self.respond = respond or (lambda cmd: None)
+        self.log: list = []
+        self._frames: list[list] = []
+        self._attr_cache: dict = {}
+        self._fn_kind: dict = {}
+        self._dc_cache: dict = {}
+        self._globals: dict = {}
+        self._probing = 0
+        self.seen_funcs: set = set()  # (module, qualified name) of every repository function that was interpreted
+
+    # ---- generators, eagerly
+    def _kind(self, node):
+        """'gen' | 'plain' for a function node (cached; pyint walks the body on every call)"""
+        k = self._fn_kind.get(id(node))
+        if k is None:
+            k = "plain"
+            if not isinstance(node, ast.Lambda):
+                for n in ast.walk(node):
+                    if isinstance(n, (ast.Yield, ast.YieldFrom, ast.Await)) and self._owner(n, node):
+                        k = "coroutine" if isinstance(n, ast.Await) else "gen"
+                        if k == "coroutine":
+                            break
+            self._fn_kind[id(node)] = k
+        return k
+
+    def call_func(self, f, args, kwargs, depth):
+        # same binding rules as pyint.call_func (without its per-call walk over the body); generator functions run eagerly
+        kind = self._kind(f.node)
+        self.seen_funcs.add((f.mod.rel, getattr(f.node, "_qual", getattr(f.node, "name", "<lambda>"))))
+        if kind == "coroutine":
+            raise AnalysisError(f"interpretation harness: {getattr(f.node, 'name', 'lambda')} is a coroutine (not modelled)")
+        env = self._bind_args(f, args, kwargs, depth)
+        if isinstance(f.node, ast.Lambda):
+            return self.ev(f.node.body, env, f.mod, depth)
+        if kind == "plain":
+            try:
+                self.block(f.node.body, env, f.mod, depth)
+            except _Return as r:
+                return r.value
+            return None
+        frame: list = []
+        self._frames.append(frame)
+        try:
+            try:
+                self.block(f.node.body, env, f.mod, depth)
+                value = None
+            except _Return as r:
+                value = r.value
+        finally:
+            self._frames.pop()
+        return GenDone(frame, value)
+
+    def apply(self, f, args, kwargs, depth, node=None):
+        if isinstance(f, Func):
+            self.calls += 1
+            if depth + 1 > self.max_depth:
+                raise AnalysisError(f"pyint: call depth {self.max_depth} exceeded at {norm(node)[:80] if node is not None else '?'}")
+            return self.call_func(f, args, kwargs, depth + 1)
+        if isinstance(f, ClassRef):
+            self.calls += 1
+            return self.instantiate(f, args, kwargs, depth, _Where(node))
+        if callable(f) and not isinstance(f, Rec):
+            self.calls += 1
+            return self.native_call(f, args, kwargs, _Where(node))
+        return super().apply(f, args, kwargs, depth, node)
+
+    def _bind_args(self, f, args, kwargs, depth):
+        node = f.node
+        a = node.args
+        env = {"$closure": f.closure} if f.closure else {}
+        params = [p.arg for p in a.posonlyargs + a.args]
+        args = list(args)
+        if f.bound is not None and params and params[0] in ("self", "cls"):
+            args = [f.bound] + args
+            env["$self"] = f.bound
+            env["$fn"] = node
+        for p, v in zip(params, args):
+            env[p] = v
+        extra = args[len(params):]
+        if a.vararg:
+            env[a.vararg.arg] = tuple(extra)
+        elif extra:
+            raise Raised("TypeError", "too many positional arguments")
+        defaults = a.defaults
+        for p, d in zip(params[len(params) - len(defaults):], defaults):
+            if p not in env and p not in kwargs:
+                env[p] = self.ev(d, {}, f.mod, depth)
+        for p, d in zip(a.kwonlyargs, a.kw_defaults):
+            if p.arg not in kwargs and d is not None:
+                env[p.arg] = self.ev(d, {}, f.mod, depth)
+        known = set(params) | {p.arg for p in a.kwonlyargs}
+        rest = {}
+        for k, v in kwargs.items():
+            if k in known:
+                env[k] = v
+            else:
+                rest[k] = v
+        if a.kwarg:
+            env[a.kwarg.arg] = rest
+        elif rest:
+            raise Raised("TypeError", f"unexpected keyword {list(rest)}")
+        for p in params + [p.arg for p in a.kwonlyargs]:
+            if p not in env:
+                raise Raised("TypeError", f"missing argument {p}")
+        return env
+
+    def ev_call(self, e, env, mod, depth):
+        if self.externals:
+            return super().ev_call(e, env, mod, depth)
+        f = self.ev(e.func, env, mod, depth)
+        args = self.elts(e.args, env, mod, depth)
+        kwargs = {}
+        for k in e.keywords:
+            if k.arg is None:
+                kwargs.update(self.ev(k.value, env, mod, depth))
+            else:
+                kwargs[k.arg] = self.ev(k.value, env, mod, depth)
+        if isinstance(f, tuple) and f and isinstance(f[0], str) and f[0] in ("$builtin", "$dictmethod", "$typing", "$exc"):
+            if f[0] == "$builtin":
+                return self.builtin(f[1], args, kwargs, e, env, mod, depth)
+            if f[0] == "$dictmethod":
+                return self.dictmethod(f[1], f[2], args, kwargs)
+            if f[0] == "$exc":
+                return f"<exc:{f[1]}>"
+            return super().ev_call(e, env, mod, depth)  # typing helpers: rare, pure - evaluate the pyint way
+        return self.apply(f, args, kwargs, depth, e)
+
+    def do_yield(self, value):
+        if not self._frames:
+            raise AnalysisError("interpretation harness: yield outside a generator call")
+        self._frames[-1].append(value)
+        self.log.append(("cmd", value))
+        return self.respond(value)
+
+    def ev(self, e, env, mod, depth):
+        t = type(e)
+        if t is ast.Constant:
+            return e.value
+        if t is ast.Name:
+            return self.name(e.id, env, mod, depth, e)
+        if t is ast.YieldFrom:
+            v = self.ev(e.value, env, mod, depth)
+            if not self._frames:
+                raise AnalysisError("interpretation harness: yield from outside a generator call")
+            for x in self.iterate(v, e.value):
+                if not isinstance(v, GenDone):  # commands of an eagerly executed sub-generator were logged when they were yielded
+                    self.log.append(("cmd", x))
+                    self.respond(x)
+                self._frames[-1].append(x)
+            return v.value if isinstance(v, GenDone) else None
+        return super().ev(e, env, mod, depth)
+
+    def iterate(self, v, node):
+        if isinstance(v, GenDone):
+            return list(v.yields)
+        return super().iterate(v, node)
+
+    def truthy(self, v):
+        if isinstance(v, GenDone):
+            return True
+        if isinstance(v, Opaque):
+            raise AnalysisError(f"interpretation harness: decision on an attribute outside the modelled world: {v!r}")
+        return super().truthy(v)
+
+    # ---- values outside the world
+    def cmp(self, op, a, b, node):
+        if isinstance(a, Opaque) or isinstance(b, Opaque):
+            raise AnalysisError(f"interpretation harness: comparison of an attribute outside the modelled world: {norm(node)[:80]}")
+        return super().cmp(op, a, b, node)
+
+    def binop(self, op, l, r, node):
+        if isinstance(l, Opaque) or isinstance(r, Opaque):
+            raise AnalysisError(f"interpretation harness: arithmetic on an attribute outside the modelled world: {norm(node)[:80]}")
+        if isinstance(op, ast.BitOr):
+            isty = lambda x: isinstance(x, (ClassRef, type)) or (isinstance(x, tuple) and x and all(isinstance(y, (ClassRef, type)) for y in x))  # noqa: E731
+            if isty(l) and isty(r) and (isinstance(l, (ClassRef, tuple)) or isinstance(r, (ClassRef, tuple))):
+                return (l if isinstance(l, tuple) else (l,)) + (r if isinstance(r, tuple) else (r,))  # X | Y in isinstance / annotations
+        return super().binop(op, l, r, node)
+
+    def native_call(self, f, args, kwargs, where):
+        if isinstance(getattr(f, "__self__", None), NullLogger) or getattr(f, "_abstract_ok", False):
+            return f(*args, **kwargs)
+        if any(isinstance(a, Opaque) for a in list(args) + list(kwargs.values())):
+            raise AnalysisError(f"interpretation harness: attribute outside the modelled world passed to a library call at {where}")
+        return super().native_call(f, args, kwargs, where)
+
+    # ---- statements pyint does not model
+    def stmt(self, st, env, mod, depth):
+        if isinstance(st, ast.Delete) and any(isinstance(t, ast.Attribute) for t in st.targets):
+            for t in st.targets:
+                if not isinstance(t, ast.Attribute):
+                    super().stmt(ast.copy_location(ast.Delete(targets=[t]), st), env, mod, depth)
+                    continue
+                base = self.ev(t.value, env, mod, depth)
+                if not isinstance(base, Rec):
+                    raise AnalysisError(f"interpretation harness: del of an attribute of a non-record: {norm(t)}")
+                if t.attr not in base.__dict__:
+                    raise Raised("AttributeError")
+                del base.__dict__[t.attr]
+                self.writes.append((base._name, "delattr", t.attr, None))
+            return
+        return super().stmt(st, env, mod, depth)
+
+    def builtin(self, name, args, kwargs, e, env, mod, depth):
+        if name in ("getattr", "hasattr"):
+            self._probing += 1
+            try:
+                return super().builtin(name, args, kwargs, e, env, mod, depth)
+            finally:
+                self._probing -= 1
+        return super().builtin(name, args, kwargs, e, env, mod, depth)
+
+    def name(self, ident, env, mod, depth, node):
+        if ident in env:
+            return env[ident]
+        if "$closure" not in env:
+            k = (mod.rel, ident)
+            if k in self._globals:
+                return self._globals[k]
+            if ident == "__name__":
+                return mod.rel[:-3].replace("/", ".")
+            v = super().name(ident, env, mod, depth, node)
+            if k not in self.overrides:
+                self._globals[k] = v  # module-level definitions / constants / imports / builtins do not change during a run
+            return v
+        if ident == "__name__":
+            return mod.rel[:-3].replace("/", ".")
+        return super().name(ident, env, mod, depth, node)
+
+    # ---- attribute lookup on records bound to a repository class
+    def _class_lookup(self, impl, attr):
+        k = (impl, attr)
+        if k not in self._attr_cache:
+            hit = None
+            for m, c in self.model.mro(*impl):
+                for st in c.body:
+                    if isinstance(st, (ast.FunctionDef, ast.AsyncFunctionDef)) and st.name == attr:
+                        hit = ("def", m, st, c)
+                    elif isinstance(st, ast.Assign) and any(isinstance(t, ast.Name) and t.id == attr for t in st.targets):
+                        hit = ("value", m, st.value, c)
+                    elif isinstance(st, ast.AnnAssign) and isinstance(st.target, ast.Name) and st.target.id == attr and st.value is not None:
+                        hit = ("value", m, st.value, c)
+                if hit:
+                    break
+            self._attr_cache[k] = hit
+        return self._attr_cache[k]
+
+    def getattr(self, base, attr, node, depth):
+        if attr == "__dict__" and isinstance(base, Rec):
+            return {k: v for k, v in base.__dict__.items() if not (k.startswith("_") and not k.startswith("__"))}  # a copy: reads only
+        if isinstance(base, Rec) and attr not in base.__dict__ and base._impl is not None and not (isinstance(base, DictRec) and attr in ("get", "pop", "items", "keys", "values", "setdefault", "get_all", "clear", "copy")):
+            hit = self._class_lookup(base._impl, attr)
+            if hit is not None and hit[0] == "value":
+                _, m, vnode, c = hit
+                scope = {s.name: Func(m, s) for s in c.body if isinstance(s, (ast.FunctionDef, ast.AsyncFunctionDef))}
+                v = self.ev(vnode, scope, m, depth)
+                if isinstance(v, Func) and v.bound is None and isinstance(v.node, ast.FunctionDef) and "staticmethod" not in [norm(d) for d in v.node.decorator_list]:
+                    v = Func(v.mod, v.node, bound=base)  # a function stored in the class is a method of its instances
+                return v
+            if hit is not None and hit[0] == "def":
+                _, m, fnode, c = hit
+                decs = [norm(d) for d in fnode.decorator_list]
+                if not any(d in ("property", "cached_property", "functools.cached_property") or d.endswith(".setter") for d in decs):
+                    if "staticmethod" in decs:
+                        return Func(m, fnode)
+                    return Func(m, fnode, bound=base)
+        if isinstance(base, OpenRec) and attr not in base.__dict__ and not attr.startswith("__"):
+            try:
+                return super().getattr(base, attr, node, depth)
+            except AnalysisError:
+                if self._probing:
+                    raise  # getattr(obj, name, default) / hasattr(obj, name): an attribute the world does not define is absent
+                return Opaque(f"{base._name}.{attr}")
+        return super().getattr(base, attr, node, depth)
+
+    # ---- dataclasses: the generated __init__ takes the fields of the dataclass-decorated classes only
+    def _class_info(self, c):
+        qual = getattr(c.node, "_qual", c.node.name)
+        k = (c.mod.rel, qual)
+        if k not in self._dc_cache:
+            mro = self.model.mro(c.mod.rel, qual)
+            first = None
+            for m, cc in mro:
+                if any(isinstance(st, ast.FunctionDef) and st.name == "__init__" for st in cc.body):
+                    first = "init"
+                    break
+                if _is_dataclass(cc):
+                    first = "dataclass"
+                    break
+            fields: list = []
+            for m, cc in reversed(mro):
+                if not _is_dataclass(cc):
+                    continue
+                for st in cc.body:
+                    if isinstance(st, ast.AnnAssign) and isinstance(st.target, ast.Name) and "ClassVar" not in norm(st.annotation):
+                        old = [i for i, f in enumerate(fields) if f[0] == st.target.id]
+                        if old:
+                            fields[old[0]] = (st.target.id, st.value, m)
+                        else:
+                            fields.append((st.target.id, st.value, m))
+            names = [cc.name for _, cc in mro]
+            ext = {last_attr(b) for _, cc in mro for b in cc.bases}
+            init = self.model.method(c.mod.rel, qual, "__init__")
+            is_exc = bool(ext & {"Exception", "ValueError", "BaseException", "RuntimeError", "TypeError", "KeyError"})
+            self._dc_cache[k] = (qual, first, fields, tuple(names[1:]) + tuple(ext), init, is_exc)
+        return self._dc_cache[k]
+
+    def instantiate(self, c, args, kwargs, depth, where):
+        qual, first, fields, bases, init, is_exc = self._class_info(c)
+        if first != "dataclass":
+            if is_exc or init is None:
+                return super().instantiate(c, args, kwargs, depth, where)
+            rec = Rec(c.node.name, _bases=bases, _impl=(c.mod.rel, qual))
+            self.apply(Func(init[0], init[1], bound=rec), list(args), kwargs, depth)
+            return rec
+        rec = Rec(c.node.name, _bases=bases, _impl=(c.mod.rel, qual))
+        if len(args) > len(fields):
+            raise Raised("TypeError", "too many positional arguments")
+        for (fname, _, _), v in zip(fields, args):
+            object.__setattr__(rec, fname, v)
+        for k, v in kwargs.items():
+            if k not in [f[0] for f in fields] or k in rec.__dict__:
+                raise Raised("TypeError", f"unexpected keyword {k}")
+            object.__setattr__(rec, k, v)
+        for fname, default, m in fields:
+            if fname not in rec.__dict__:
+                if default is None:
+                    raise Raised("TypeError", f"missing argument {fname}")
+                if isinstance(default, ast.Call) and last_attr(default.func) == "field":
+                    kws = {k.arg: k.value for k in default.keywords}
+                    if "default" in kws:
+                        object.__setattr__(rec, fname, self.ev(kws["default"], {}, m, depth))
+                    elif "default_factory" in kws:
+                        object.__setattr__(rec, fname, self.apply(self.ev(kws["default_factory"], {}, m, depth), [], {}, depth))
+                    else:
+                        raise Raised("TypeError", f"missing argument {fname}")
+                    continue
+                object.__setattr__(rec, fname, self.ev(default, {}, m, depth))
+        return rec
+
+
+# ---------------------------------------------------------------------------------------------------
+# Socks5Proxy: interpreted runs, reference model (RFC 1928 / 1929), input domain
+
+EVENTS_REL = "mitmproxy/proxy/events.py"
+LAYER_REL = "mitmproxy/proxy/layer.py"
+SOCKS5_TAIL = b"\x00\x01\x00\x00\x00\x00\x00\x00"
+
+
+class Socks5Cfg:
+    """One environment of the SOCKS5 layer: is proxyauth configured, which credentials the auth hook accepts, connection
+    strategy, outcome of OpenConnection."""
+
+    def __init__(self, proxyauth=False, accept=None, eager=True, err=None, registered=True):
+        self.proxyauth = proxyauth  # the option value is truthy
+        self.accept = accept  # (user, password) accepted by the hook, "*" = any, None = none
+        self.eager = eager
+        self.err = err
+        self.registered = registered  # is the proxyauth option registered at all ("proxyauth" in options)
+
+    def valid(self, user, password) -> bool:
+        return self.accept == "*" or (self.accept is not None and (user, password) == tuple(self.accept))
+
+    def key(self):
+        return (self.proxyauth, self.accept if self.accept in (None, "*") else tuple(self.accept), self.eager, self.err, self.registered)
+
+    def __repr__(self):
+        return f"proxyauth={'on' if self.proxyauth else 'off'}{'' if self.registered else ' (option not registered)'}, hook accepts {self.accept!r}, {'eager' if self.eager else 'lazy'}, open->{self.err!r}"
+
+
+NO_BUFFER = ("no buffer attribute identified",)
+
+
+class Socks5Step:
+    """What the layer did for one event."""
+
+    __slots__ = ("event", "trace", "exc", "handler", "address", "buf", "addr_writes")
+
+    def __init__(self, event):
+        self.event = event
+        self.trace = []  # ('send', conn, bytes) | ('close', conn) | ('open', conn, address) | ('hook', Cls, user, password) | ('child_start',) | ('child_data', conn, bytes) | ('child_event', Cls) | ('other', Cls)
+        self.exc = None
+        self.handler = "own"  # own | child | other (classified as done / live by a probe at the end of the run)
+        self.address = None
+        self.buf = None  # value of the layer's buffer attribute after the event (None: deleted)
+        self.addr_writes = 0
+
+
+def merge_sends(trace):
+    """Consecutive sends to the same connection are one byte string on the wire; Log commands are dropped by the recorder."""
+    out = []
+    for e in trace:
+        if e[0] in ("send", "child_data") and out and out[-1][0] == e[0] and out[-1][1] == e[1]:
+            out[-1] = (e[0], e[1], out[-1][2] + e[2])
+        else:
+            out.append(e)
+    return out
+
+
+class Socks5World:
+    """Interprets ``Socks5Proxy`` (bound to the repository class, all helpers resolved through the MRO) for one environment.
+    ``run(segments, close=False)`` delivers Start, one DataReceived per segment and optionally ConnectionClosed through the handler
+    that is installed at that moment (as ``Layer.handle_event`` does) and returns the steps plus the verdict of a final probe."""
+
+    def __init__(self, model, cls: str = "Socks5Proxy"):
+        self.model = model if isinstance(model, CachedModel) else CachedModel(model)
+        self.cls = cls
+        self.cfg = None
+        self.it = LayerInterp(self.model, respond=self._respond)
+        self.it.overrides[(LAYER_REL, "NextLayer")] = self._next_layer
+        self._next_layer.__func__._abstract_ok = True
+        self._child_handle.__func__._abstract_ok = True
+        self.evmod = self.model.module(EVENTS_REL)
+        r = self.model.method(MODES, cls, "_handle_event")
+        if r is None:
+            raise AnalysisError(f"anchor vanished: {MODES}::{cls}._handle_event")
+        self.own_node = r[1]
+        self.runs = 0
+        bufs = []
+        for m, c in self.model.mro(MODES, cls):
+            for st in c.body:
+                if isinstance(st, (ast.Assign, ast.AnnAssign)) and getattr(st, "value", None) is not None and isinstance(st.value, ast.Constant) and isinstance(st.value.value, bytes):
+                    t = st.targets[0] if isinstance(st, ast.Assign) else st.target
+                    if isinstance(t, ast.Name):
+                        bufs.append((t.id, st.value.value))
+        if len(bufs) > 1:
+            bufs = [b for b in bufs if b[1] == b""]
+        self.buf_attr = bufs[0][0] if len(bufs) == 1 else None  # the (single) empty bytes-valued class attribute: unparsed handshake bytes
+        self.buf_init = bufs[0][1] if len(bufs) == 1 else None
+
+    # ---- environment
+    def _respond(self, cmd):
+        if isinstance(cmd, Rec):
+            if cmd._cls.endswith("Hook"):
+                for v in list(cmd.__dict__.values()):
+                    if isinstance(v, Rec) and "valid" in v.__dict__ and "username" in v.__dict__:
+                        self._hooked.append(v)
+                        if self.cfg.valid(v.__dict__.get("username"), v.__dict__.get("password")):
+                            object.__setattr__(v, "valid", True)  # what ProxyAuth.socks5_auth does for accepted credentials (C20 R20.3)
+            if cmd._cls == "OpenConnection":
+                return self.cfg.err
+        return None
+
+    def _next_layer(self, context, *a, **k):
+        self._children += 1
+        return Rec("NextLayer", _bases=("Layer",), _name="child", handle_event=self._child_handle, context=context)
+
+    def _child_handle(self, event):
+        self.it.log.append(("child", event))
+        return ()
+
+    def _mk_event(self, cls, *args):
+        return self.it.instantiate(ClassRef(self.evmod, self.model.cls(EVENTS_REL, cls)), list(args), {}, 0, cls)
+
+    # ---- recording
+    def _conn(self, v):
+        return v._name if isinstance(v, Rec) else repr(v)
+
+    def _abstract(self, entries):
+        out = []
+        for kind, x in entries:
+            if kind == "child":
+                if isinstance(x, Rec) and x._cls == "Start":
+                    out.append(("child_start",))
+                elif isinstance(x, Rec) and x._cls == "DataReceived":
+                    out.append(("child_data", self._conn(x.__dict__.get("connection")), x.__dict__.get("data")))
+                else:
+                    out.append(("child_event", getattr(x, "_cls", type(x).__name__)))
+                continue
+            if not isinstance(x, Rec):
+                out.append(("other", repr(x)[:40]))
+                continue
+            d = x.__dict__
+            if x.isa("SendData"):
+                out.append(("send", self._conn(d.get("connection")), d.get("data")))
+            elif x.isa("CloseConnection"):
+                out.append(("close", self._conn(d.get("connection"))))
+            elif x.isa("OpenConnection"):
+                out.append(("open", self._conn(d.get("connection")), self.server.__dict__.get("address")))
+            elif x.isa("Log"):
+                continue
+            elif x._cls.endswith("Hook"):
+                data = next((v for v in d.values() if isinstance(v, Rec) and "username" in v.__dict__), None)
+                out.append(("hook", x._cls, data.__dict__.get("username") if data else None, data.__dict__.get("password") if data else None))
+            else:
+                out.append(("other", x._cls))
+        return out
+
+    def _handler(self):
+        h = self.layer.__dict__.get("_handle_event")
+        if h is None or (isinstance(h, Func) and h.node is self.own_node and h.bound is self.layer):
+            return "own", h
+        if h == self._child_handle:
+            return "child", h
+        return "other", h
+
+    def _deliver(self, kind, *args):
+        step = Socks5Step(kind)
+        ev = self._mk_event(kind, *args)
+        self.it.log = []
+        w0 = len(self.it.writes)
+        try:
+            h = self.it.getattr(self.layer, "_handle_event", None, 0)
+            r = self.it.apply(h, [ev], {}, 0)
+            if r is not None and not isinstance(r, (GenDone, tuple, list)):
+                raise AnalysisError(f"SOCKS5 harness: the event handler returned {type(r).__name__}, not a command generator")
+        except Raised as e:
+            step.exc = e.name
+        step.trace = self._abstract(self.it.log)
+        step.handler = self._handler()[0]
+        step.address = self.server.__dict__.get("address")
+        attr = self.buf_attr or self._run_buf_attr
+        step.buf = self.layer.__dict__.get(attr, self.buf_init) if attr else NO_BUFFER
+        if attr and attr not in self.layer.__dict__ and any(w[0] == "layer" and w[1] == "delattr" and w[2] == attr for w in self.it.writes):
+            step.buf = None
+        step.addr_writes = sum(1 for w in self.it.writes[w0:] if w[0] == "server" and w[1] == "attr" and w[2] == "address")
+        return step
+
+    def run(self, segments, cfg: Socks5Cfg, close: bool = False, probe: bytes = b"\x05\x01\x00\x05\x01\x00\x01\x7f\x00\x00\x01\x00\x50", expect_done: bool = False):
+        """-> (steps, final) with final = 'own' | 'child' | 'done' (the layer ignores data and close from now on) | 'live' (a replaced handler
+        that still reacts).  ``expect_done``: the reference says the handshake has ended - then a layer that kept its own handler is probed too
+        (ending by a flag instead of swapping the handler is the same behaviour)."""
+        self.cfg = cfg
+        self.runs += 1
+        self.it.steps = 0
+        self.it.writes = []
+        self._hooked = []
+        self._children = 0
+        self.client = OpenRec("Client", _bases=("Connection",), _name="client")
+        self.server = OpenRec("Server", _bases=("Connection",), _name="server", address=None, transport_protocol="tcp")
+        opts = {"connection_strategy": "eager" if cfg.eager else "lazy"}
+        if cfg.registered:
+            opts["proxyauth"] = ("user:pass" if cfg.proxyauth else None)
+        options = OpenDictRec("Options", dict(opts), _name="options", **opts)
+        self.context = OpenRec("Context", _name="context", client=self.client, server=self.server, options=options, layers=[])
+        # the layer object is built by interpreting the constructor chain (Layer.__init__ and whatever the subclasses add)
+        self.layer = self.it.instantiate(ClassRef(self.model.module(MODES), self.model.cls(MODES, self.cls)), [self.context], {}, 0, self.cls)
+        if not isinstance(self.layer, Rec) or self.layer.__dict__.get("context") is not self.context:
+            raise AnalysisError(f"SOCKS5 harness: constructing {self.cls}(context) does not give a layer bound to the context")
+        object.__setattr__(self.layer, "_name", "layer")
+        self.it.writes = []
+        self._run_buf_attr = None
+        if self.buf_attr is None:
+            # no class-level default: the (single) empty bytes / bytearray attribute the constructor created is the handshake buffer
+            made = [k for k, v in self.layer.__dict__.items() if isinstance(v, (bytes, bytearray)) and len(v) == 0]
+            if len(made) == 1:
+                self._run_buf_attr = made[0]
+        steps = [self._deliver("Start")]
+        for seg in segments:
+            if steps[-1].exc is not None:
+                break
+            steps.append(self._deliver("DataReceived", self.client, seg))
+        if close and steps[-1].exc is None:
+            steps.append(self._deliver("ConnectionClosed", self.client))
+        final = steps[-1].handler
+        if (final == "other" or (final == "own" and expect_done and not close)) and steps[-1].exc is None:
+            # semantic meaning of "the layer has ended": whatever arrives now has no effect
+            p1 = self._deliver("DataReceived", self.client, probe)
+            p2 = self._deliver("ConnectionClosed", self.client) if p1.exc is None else p1
+            silent = all(p.exc is None and not p.trace and not p.addr_writes for p in (p1, p2)) and p2.handler == final
+            final = "done" if silent else ("live" if final == "other" else "own")
+        return steps, final
+
+
+def socks5_reference(stream: bytes, cfg: Socks5Cfg):
+    """What RFC 1928 / 1929 (and the property) demand after ``stream`` has been received, in whatever segmentation:
+    -> dict(wire=[...], child=[...], state='own'|'done'|'child', address, rest (unparsed bytes while 'own'), phase)."""
+    wire, child = [], []
+    pos = 0
+    res = {"wire": wire, "child": child, "address": None, "rest": None, "phase": "greeting"}
+
+    def have(k):
+        return len(stream) - pos >= k
+
+    def wait():
+        res.update(state="own", rest=stream[pos:])
+        return res
+
+    def reject(code=None, alt=None):
+        if code is not None:
+            wire.append(("send", "client", alt if alt else bytes([5, code]) + SOCKS5_TAIL))
+        wire.append(("close", "client"))
+        res.update(state="done")
+        return res
+
+    if not have(2):
+        return wait()
+    if stream[0] != 5:
+        return reject()
+    n = stream[1]
+    if not have(2 + n):
+        return wait()
+    use_auth = bool(cfg.proxyauth and cfg.registered)
+    method = 2 if use_auth else 0
+    if method not in stream[2 : 2 + n]:
+        # RFC 1928: X'05' X'FF'; today's code pads the reply like a request reply - either way it starts with 05 FF
+        return reject(0xFF, alt=(b"\x05\xff", b"\x05\xff" + SOCKS5_TAIL))
+    wire.append(("send", "client", bytes([5, method])))
+    pos += 2 + n
+    if use_auth:
+        res["phase"] = "auth"
+        if not have(3):
+            return wait()
+        ulen = stream[pos + 1]
+        if not have(3 + ulen):
+            return wait()
+        plen = stream[pos + 2 + ulen]
+        if not have(3 + ulen + plen):
+            return wait()
+        user = stream[pos + 2 : pos + 2 + ulen].decode("utf-8", "backslashreplace")
+        password = stream[pos + 3 + ulen : pos + 3 + ulen + plen].decode("utf-8", "backslashreplace")
+        wire.append(("hook", "Socks5AuthHook", user, password))
+        if not cfg.valid(user, password):
+            wire.append(("send", "client", b"\x01\x01"))
+            return reject()
+        wire.append(("send", "client", b"\x01\x00"))
+        pos += 3 + ulen + plen
+    res["phase"] = "request"
+    if not have(5):
+        return wait()
+    if stream[pos : pos + 3] != b"\x05\x01\x00":
+        return reject(0x07)
+    atyp = stream[pos + 3]
+    if atyp == 1:
+        ln = 10
+    elif atyp == 4:
+        ln = 22
+    elif atyp == 3:
+        ln = 7 + stream[pos + 4]
+    else:
+        return reject(0x08)
+    if not have(ln):
+        return wait()
+    msg = stream[pos : pos + ln]
+    pos += ln
+    if atyp == 1:
+        host = _socket.inet_ntop(_socket.AF_INET, msg[4:8])
+    elif atyp == 4:
+        host = _socket.inet_ntop(_socket.AF_INET6, msg[4:20])
+    else:
+        host = msg[5:-2].decode("ascii", "replace")
+    port = (msg[-2] << 8) | msg[-1]
+    res["address"] = (host, port)
+    res["phase"] = "relay"
+    if cfg.eager:
+        wire.append(("open", "server", (host, port)))
+        if cfg.err:
+            wire.append(("send", "client", b"\x05\x04" + SOCKS5_TAIL))
+            wire.append(("close", "client"))
+            res.update(state="done")
+            return res
+    wire.append(("send", "client", b"\x05\x00" + SOCKS5_TAIL))
+    child.append(("child_start",))
+    if stream[pos:]:
+        child.append(("child_data", "client", stream[pos:]))
+    res.update(state="child")
+    return res
+
+
+def socks5_boundaries(stream: bytes, cfg: Socks5Cfg):
+    """Offsets at which a complete message ends (greeting, authentication, request) according to the reference."""
+    out = []
+    for i in range(1, len(stream) + 1):
+        a, b = socks5_reference(stream[: i - 1], cfg), socks5_reference(stream[:i], cfg)
+        if (a["phase"], a["state"]) != (b["phase"], b["state"]):
+            out.append(i)
+    return out
+
+
+def socks5_request(atyp: int, addr: bytes, port: int, cmd: int = 1, ver: int = 5, rsv: int = 0) -> bytes:
+    return bytes([ver, cmd, rsv, atyp]) + addr + bytes([port >> 8, port & 0xFF])
+
+
+def socks5_auth_msg(user: bytes, password: bytes, ver: int = 1) -> bytes:
+    return bytes([ver, len(user)]) + user + bytes([len(password)]) + password
+
+
+def socks5_domain(thorough: bool = False):
+    """[(name, stream, Socks5Cfg)]: valid and malformed handshakes, every address type, boundary lengths, pipelined payload."""
+    V4 = socks5_request(1, bytes([192, 0, 2, 7]), 8080)
+    V6 = socks5_request(4, bytes(range(0x20, 0x30)), 443)
+    DOM = socks5_request(3, bytes([11]) + b"example.com", 443)
+    DOM0 = socks5_request(3, bytes([0]), 80)
+    DOM1 = socks5_request(3, bytes([1]) + b"x", 0x0102)
+    DOMX = socks5_request(3, bytes([4]) + b"h\xff\x80t", 65535)  # non-ASCII host bytes, highest port
+    TAIL = b"\x16\x03\x01\x00\x05hello"
+    NOAUTH = Socks5Cfg(False)
+    LAZY = Socks5Cfg(False, eager=False)
+    FAIL = Socks5Cfg(False, err="connection refused")
+    AUTH = Socks5Cfg(True, accept=("user", "p:w"))
+    AUTH_LAZY = Socks5Cfg(True, accept=("user", "p:w"), eager=False)
+    AUTH_FAIL = Socks5Cfg(True, accept=("user", "p:w"), err="timed out")
+    ANY = Socks5Cfg(True, accept="*")
+    G0 = b"\x05\x01\x00"
+    G2 = b"\x05\x01\x02"
+    OK = socks5_auth_msg(b"user", b"p:w")
+    cases = [
+        ("ipv4 + payload", G0 + V4 + TAIL, NOAUTH),
+        ("ipv4, lazy", G0 + V4, LAZY),
+        ("ipv6 + payload, lazy", G0 + V6 + TAIL, LAZY),
+        ("domain + payload", b"\x05\x02\x02\x00" + DOM + TAIL, NOAUTH),
+        ("empty domain", G0 + DOM0 + b"x", NOAUTH),
+        ("1-byte domain", b"\x05\x03\x01\x02\x00" + DOM1, LAZY),
+        ("non-ascii domain", G0 + DOMX + b"\x00", NOAUTH),
+        ("connect fails", G0 + DOM + TAIL, FAIL),
+        ("200-byte domain", G0 + socks5_request(3, bytes([200]) + b"sub." * 50, 0x8001) + b"t", LAZY),
+        ("130 methods", b"\x05\x82" + bytes(range(130, 0, -1)) + V4 + b"m", NOAUTH),
+        ("no methods", b"\x05\x00" + V4, NOAUTH),
+        ("method 0 not offered", b"\x05\x02\x01\x02" + V4, NOAUTH),
+        ("version 4", b"\x04\x01\x00\x50\x7f\x00\x00\x01\x00", NOAUTH),
+        ("http request", b"GET / HTTP/1.1\r\n\r\n", NOAUTH),
+        ("lowercase garbage", b"ge", NOAUTH),
+        ("bind command", G0 + socks5_request(1, bytes(4), 80, cmd=2) + b"x", NOAUTH),
+        ("udp associate", G0 + socks5_request(3, b"\x01a", 80, cmd=3), NOAUTH),
+        ("request version 4", G0 + socks5_request(1, bytes(4), 80, ver=4), NOAUTH),
+        ("reserved byte set", G0 + socks5_request(1, bytes(4), 80, rsv=1), NOAUTH),
+        ("address type 2", G0 + socks5_request(2, bytes(4), 80) + b"rest", NOAUTH),
+        ("address type 0", G0 + socks5_request(0, bytes(6), 80), NOAUTH),
+        ("address type 255", G0 + socks5_request(255, bytes(3), 80), LAZY),
+        ("auth ok, domain + payload", G2 + OK + DOM + TAIL, AUTH),
+        ("auth ok, ipv4, lazy", b"\x05\x02\x00\x02" + OK + V4 + b"q", AUTH_LAZY),
+        ("auth ok, connect fails", G2 + OK + V6, AUTH_FAIL),
+        ("auth wrong password", G2 + socks5_auth_msg(b"user", b"nope") + V4 + TAIL, AUTH),
+        ("auth empty credentials refused", G2 + socks5_auth_msg(b"", b"") + V4, AUTH),
+        ("auth empty credentials accepted", G2 + socks5_auth_msg(b"", b"") + DOM + b"x", ANY),
+        ("auth empty user", G2 + socks5_auth_msg(b"", b"secret") + V4, ANY),
+        ("auth empty password", G2 + socks5_auth_msg(b"me", b"") + V4 + b"\x00\x01", ANY),
+        ("auth non-utf8", G2 + socks5_auth_msg(b"us\xff", b"\xc3") + V4, ANY),
+        ("auth 129-byte user, 128-byte password", G2 + socks5_auth_msg(b"u" * 129, b"\xf0" * 128) + V4 + b"!", ANY),
+        ("auth only method 0 offered", G0 + V4 + TAIL, AUTH),
+        ("auth skipped by client", G2 + V4 + TAIL, AUTH),
+        ("auth, bad request", G2 + OK + socks5_request(1, bytes(4), 80, cmd=2), AUTH),
+        ("auth sub-negotiation version 5", G2 + socks5_auth_msg(b"user", b"p:w", ver=5) + V4, AUTH),
+    ]
+    if thorough:
+        long_user, long_pw = bytes(range(1, 256)), b"P" * 255
+        cases += [
+            ("255-byte domain", G0 + socks5_request(3, bytes([255]) + b"d" * 255, 1) + b"t", LAZY),
+            ("255 methods", b"\x05\xff" + bytes(range(255, 0, -1)) + V4, AUTH),
+            ("255-byte credentials", G2 + socks5_auth_msg(long_user, long_pw) + V4 + b"!", ANY),
+            ("ipv6 + payload, eager", G0 + V6 + TAIL, NOAUTH),
+            ("auth ok, ipv6 + payload", G2 + OK + V6 + TAIL, AUTH),
+        ]
+    return cases
+
+
+def socks5_segmentations(stream: bytes, cfg: Socks5Cfg, thorough: bool = False, budget: int = 40):
+    """Cut-point tuples: whole, every single cut, byte by byte, the message boundaries, cuts around the boundaries, and pairs
+    (all pairs in the thorough tier for short streams, a deterministic sample otherwise)."""
+    n = len(stream)
+    segs = [()]
+    singles = [(i,) for i in range(1, n)]
+    if n > 64 and not thorough:
+        b = socks5_boundaries(stream, cfg)
+        near = sorted({j for i in b for j in (i - 2, i - 1, i, i + 1) if 0 < j < n} | set(range(1, min(n, 12))) | {n - 1, n - 2})
+        singles = [(i,) for i in near if 0 < i < n]
+    segs += singles
+    if n > 1:
+        segs.append(tuple(range(1, n)))
+    bounds = [i for i in socks5_boundaries(stream, cfg) if 0 < i < n]
+    if bounds:
+        segs.append(tuple(bounds))
+    pairs = [(i, j) for i in range(1, n) for j in range(i + 1, n)]
+    if thorough and n <= 32:
+        segs += pairs
+    elif pairs:
+        step = max(1, len(pairs) // budget)
+        segs += pairs[::step][:budget]
+        for bnd in bounds:
+            for d in (1, 2):
+                if bnd + d < n:
+                    segs.append((bnd, bnd + d))
+                if bnd - d > 0:
+                    segs.append((bnd - d, bnd))
+    seen, out = set(), []
+    for c in segs:
+        if c not in seen:
+            seen.add(c)
+            out.append(c)
+    return out
+
+
+def cut(stream: bytes, cuts) -> list:
+    pts = [0] + list(cuts) + [len(stream)]
+    return [stream[a:b] for a, b in zip(pts, pts[1:])]
+
+
+def _merge_expected(trace):
+    out = []
+    for e in trace:
+        if e[0] == "send" and out and out[-1][0] == "send" and out[-1][1] == e[1] and isinstance(e[2], bytes) and isinstance(out[-1][2], bytes):
+            out[-1] = ("send", e[1], out[-1][2] + e[2])
+        else:
+            out.append(e)
+    return out
+
+
+def _payload_ok(got, want) -> bool:
+    return got in want if isinstance(want, tuple) and want and isinstance(want[0], bytes) else got == want
+
+
+def _same(got, want) -> bool:
+    if len(got) != len(want):
+        return False
+    for g, w in zip(got, want):
+        if g[0] != w[0] or len(g) != len(w):
+            return False
+        if g[0] == "send":
+            if g[1] != w[1] or not _payload_ok(g[2], w[2]):
+                return False
+        elif g != w:
+            return False
+    return True
+
+
+def _show(trace) -> str:
+    def one(e):
+        if e[0] in ("send", "child_data"):
+            alts = e[2] if isinstance(e[2], tuple) else (e[2],)
+            return f"{e[0]}({e[1]}, {' | '.join(a.hex(' ') if isinstance(a, bytes) else repr(a) for a in alts)})"
+        return f"{e[0]}({', '.join(repr(x) for x in e[1:])})"
+
+    return "[" + ", ".join(one(e) for e in trace) + "]"
+
+
+WIRE_KINDS = ("send", "close", "open", "hook", "other")
+CHILD_KINDS = ("child_start", "child_data", "child_event")
+
+
+def socks5_judge(steps, final, stream: bytes, cuts, cfg: Socks5Cfg, closed: bool = False):
+    """Compare an interpreted run with the reference after every event.  -> [(kind, at, message)] with kind in
+    'exception' | 'start' | 'wire' | 'child' | 'state' | 'address' | 'buffer' | 'order' | 'close' and at = number of bytes
+    delivered when the difference showed (None: whole run)."""
+    out = []
+    seen: set = set()
+    segs = cut(stream, cuts)
+    trace = []
+    got_bytes = 0
+    writes = 0
+    for k, st in enumerate(steps):
+        if st.event == "Start":
+            if st.trace or st.exc or st.addr_writes or st.handler != "own":
+                out.append(("start", 0, f"Start has an effect before any byte arrived: {_show(st.trace)} {st.exc or ''}".strip()))
+            continue
+        if st.event == "ConnectionClosed":
+            before = socks5_reference(stream, cfg)
+            if st.exc:
+                out.append(("exception", len(stream), f"{st.exc} escapes the layer on ConnectionClosed"))
+            elif before["state"] == "own" and [e for e in st.trace if e[0] != "other"] != [("close", "client")]:
+                out.append(("close", len(stream), f"ConnectionClosed during the handshake is answered with {_show(st.trace)}, expected close(client)"))
+            continue
+        got_bytes += len(segs[k - 1])
+        want = socks5_reference(stream[:got_bytes], cfg)
+        trace += st.trace
+        writes += st.addr_writes
+        wire = merge_sends([e for e in trace if e[0] in WIRE_KINDS])
+        child = merge_sends([e for e in trace if e[0] in CHILD_KINDS])
+        want["wire"] = _merge_expected(want["wire"])
+
+        def diff(kind, msg):
+            if kind not in seen:
+                seen.add(kind)
+                out.append((kind, got_bytes, msg))
+
+        if st.exc:
+            diff("exception", f"{st.exc} escapes the layer")
+        if not _same(wire, want["wire"]) and not (st.exc and _same(wire, want["wire"][: len(wire)]) and want["state"] == "own"):
+            diff("wire", f"commands {_show(wire)}, expected {_show(want['wire'])}")
+        if not _same(child, want["child"]):
+            diff("child", f"the next layer received {_show(child)}, expected {_show(want['child'])}")
+        if st.exc:
+            break
+        state = st.handler if st.handler != "other" else "done"
+        if state == "own" and want["state"] == "done" and final == "done":
+            state = "done"  # ended without swapping the handler: the probe at the end of the run showed that nothing has an effect any more
+        if state != want["state"]:
+            names = {"own": "still parsing", "done": "ended", "child": "relaying to the next layer"}
+            diff("state", f"the layer is {names.get(state, state)}, expected: {names[want['state']]}")
+        if st.address != want["address"]:
+            diff("address", f"context.server.address is {st.address!r}, expected {want['address']!r}")
+        if want["state"] == "own" and state == "own" and st.buf is not NO_BUFFER and st.buf != want["rest"]:
+            diff("buffer", f"unparsed buffer is {st.buf!r}, expected {want['rest']!r}")
+    if writes > 1:
+        out.append(("order", None, f"context.server.address is written {writes} times"))
+    kinds = [e[0] for e in trace]
+    if kinds.count("child_start") > 1:
+        out.append(("order", None, "the next layer is started more than once"))
+    if "child_data" in kinds and ("child_start" not in kinds or kinds.index("child_data") < kinds.index("child_start")):
+        out.append(("order", None, "data is handed to the next layer before its Start event"))
+    if "child_start" in kinds and "open" in kinds and kinds.index("child_start") < kinds.index("open"):
+        out.append(("order", None, "the next layer is started before the server connection was opened (eager strategy)"))
+    if final == "live":
+        out.append(("state", None, "after the handshake ended the installed handler still reacts to data / close (the layer has not ended)"))
+    # what an ended handshake looks like, whatever the reference says
+    wire_all = [e for e in trace if e[0] in WIRE_KINDS]
+    closes = [i for i, e in enumerate(trace) if e == ("close", "client")]
+    if closes and any(e[0] in WIRE_KINDS + CHILD_KINDS for e in trace[closes[0] + 1 :]):
+        out.append(("order", None, f"the layer goes on after it closed the client connection: {_show(trace[closes[0] + 1 :][:3])}"))
+    if final in ("done", "live") and not any(s.exc for s in steps) and not any(s.event == "ConnectionClosed" for s in steps):
+        if wire_all[-1:] != [("close", "client")]:
+            out.append(("order", None, "the handshake ended without closing the client connection"))
+        if any(e[0] in CHILD_KINDS for e in trace):
+            out.append(("order", None, "the next layer was started although the handshake ended with an error"))
+    if final == "child" and closes:
+        out.append(("order", None, "the layer relays to the next layer although it closed the client connection"))
+    return out
+
+
+def hook_method_sem(ctx, rel: str, cls_name: str) -> str:
+    """Like ``hook_method``, but the derived name is obtained by *interpreting* ``Hook.__init_subclass__`` for a class of that name
+    (whatever way the derivation is written); the textual re-statement is only the fallback when that code leaves the interpreted subset."""
+    c = ctx.model.cls(rel, cls_name)
+    for st in c.body:
+        tgt = val = None
+        if isinstance(st, ast.Assign) and len(st.targets) == 1:
+            tgt, val = st.targets[0], st.value
+        elif isinstance(st, ast.AnnAssign) and st.value is not None:
+            tgt, val = st.target, st.value
+        if isinstance(tgt, ast.Name) and tgt.id == "name":
+            if isinstance(val, ast.Constant) and isinstance(val.value, str):
+                return val.value
+            raise AnalysisError(f"{rel}::{cls_name}.name is not a string literal")
+    try:
+        fn = ctx.model.func(HOOKS, "Hook.__init_subclass__")
+        it = LayerInterp(ctx.model)
+        it.overrides[(HOOKS, "object")] = object
+        cls = Rec("type", _name="cls")
+        object.__setattr__(cls, "__name__", cls_name)
+        it.apply(Func(ctx.model.module(HOOKS), fn), [cls], {}, 0)
+        name = cls.__dict__.get("name")
+        if isinstance(name, str) and name:
+            ctx.trust("hook method name = the name Hook.__init_subclass__ assigns (hooks.py, interpreted on every run)")
+            return name
+    except (AnalysisError, Raised):
+        pass
+    return hook_method(ctx, rel, cls_name)
